@@ -53,11 +53,18 @@ def sessionStep (st : Fit) (j : Json) : R (List Step × Json) := do
       jObj [("op", jStr "refit"), ("fitted", jBool fitted), ("adopted", jBool !extra.isEmpty)])
   | "calibrate" =>
     let resp ← getList (asOpt asRat) j "responses"
-    let conc ← getList (asOpt asRat) j "concentrations"
     let g := st.gradient
     let c := st.intercept
-    pure ([.calibrate resp], jObj [("op", jStr "calibrate"), ("spec", jList jV conc),
-      ("on_line", jBool (decide (conc.map (fun x => calibrate g c (x.map (fun q => g * q + c))) = conc)))])
+    -- "concentrations": the array the responses were built from (binary64 data), or null: the data array holds
+    -- the responses in its own dtype and the specification is the formula on them (`specCalibrate`)
+    match ← (fld j "concentrations") >>= asOpt (asList (asOpt asRat)) with
+    | some conc =>
+      pure ([.calibrate resp], jObj [("op", jStr "calibrate"), ("spec", jList jV conc),
+        ("on_line", jBool (decide (conc.map (fun x => calibrate g c (x.map (fun q => g * q + c))) = conc)))])
+    | none =>
+      let spec := resp.map (specCalibrate g c)
+      pure ([.calibrate resp], jObj [("op", jStr "calibrate"), ("spec", jList jV spec),
+        ("on_line", jBool ((List.zip resp spec).all (fun p => onLine g c p.1 p.2)))])
   | o => throw s!"unknown session step {o}"
 
 def handle (op : String) (req : Json) : R Json := do
@@ -68,9 +75,12 @@ def handle (op : String) (req : Json) : R Json := do
     if wt == .custom && (usableRows rows).any (fun r => r.cw.isNone) then
       throw "NaN custom weight on a usable row (outside the property)"
     let fit := updateLinreg wt rows
-    let l := fitPts wt rows
-    let fitted := !rows.isEmpty && (usableRows rows).length ≥ 2
-    -- specification: textbook centred form, squared weighted correlation, residual variance with raw sums
+    -- specification: evaluated on the NaN-free table alone (`specPts`: entry-by-entry weights, no mask, no
+    -- replacement pass; the harness sends the NaN-free table itself for the value it judges against): textbook
+    -- centred form, squared weighted correlation, residual variance with raw sums (`fit_is_specification`)
+    let clean := rows.filter (fun r => r.x.isSome && r.y.isSome)
+    let l := specPts wt clean
+    let fitted := clean.length ≥ 2
     let spec : Json :=
       if fitted then
         jObj [("gradient", jRat (specGradient l)), ("intercept", jRat (specIntercept l)),
@@ -96,7 +106,8 @@ def handle (op : String) (req : Json) : R Json := do
           us.any (fun p => us.any (fun q => decide (p.x ≠ q.x))) && hasNonzero col
         | .custom => false)),
       ("spec_weights_finite", jBool (finiteAtFinite col specW)),
-      ("fit_weights", jList jRat (l.map (·.w))),
+      ("fit_weights", jList jRat ((fitPts wt rows).map (·.w))),
+      ("mech_pts_are_spec_pts", jBool (fitPts wt rows == l)),
       ("usable", jNat (usableRows rows).length),
       ("fitted", jBool fitted),
       ("model", jFit fit),
@@ -121,6 +132,20 @@ def handle (op : String) (req : Json) : R Json := do
       ("model", jList jV (resp.map (calibrate g c))),
       ("spec", jList jV conc),
       ("on_line", jBool (decide (conc.map (fun x => calibrate g c (x.map (fun q => g * q + c))) = conc)))])
+  | "c06.calibrate_data" =>
+    -- an array of responses as the data array holds them (every element the exact rational its dtype denotes:
+    -- integer counts, binary32, binary64): model = the code's arithmetic, spec = the pure formula (r − c)/g
+    -- (`calibrate_is_formula`), `on_line` = every specified value is the concentration at which its response lies
+    -- on the line (`calibrate_eq_iff_on_line` / `onLine_calibrate` evaluated on this case)
+    let g ← getRat req "gradient"
+    let c ← getRat req "intercept"
+    let resp ← getList (asOpt asRat) req "responses"
+    let spec := resp.map (specCalibrate g c)
+    pure (jObj [
+      ("model", jList jV (resp.map (calibrate g c))),
+      ("spec", jList jV spec),
+      ("identity", jBool (decide (g = 1 ∧ c = 0))),
+      ("on_line", jBool ((List.zip resp spec).all (fun p => onLine g c p.1 p.2)))])
   | "c06.session" =>
     -- several operations on one object (`Pew.Calib.Step`, `run`, `finalState`): the object starts with the line
     -- given to the constructor; reported per step: the line the object holds after it, and for a calibrate step
